@@ -287,13 +287,15 @@ def main():
     if args.replay:
         import replay as R
         sys.exit(R.replay_file(args.replay))
-    files = sorted(glob.glob(os.path.join(VERIF, 'contracts', prop, '*.c')))
+    files = sorted(glob.glob(os.path.join(VERIF, 'contracts', 'C*', '*.c')))
     metas = []
     for f in files:
         try:
             m = parse_meta(f)
         except Exception as e:
             print('BROKEN harness header %s: %s' % (f, e)); sys.exit(2)
+        home = os.path.basename(os.path.dirname(f))
+        if prop != home and prop not in m.get('props', []): continue
         if args.only and m['name'] != args.only: continue
         if m.get('tier', 'quick') == 'thorough' and args.tier != 'thorough': continue
         if m.get('disabled'): continue
